@@ -53,7 +53,7 @@ func textKindOf(w *World) (*textKind, error) {
 	}
 	for _, call := range callsIn(k.Execute, func(c *ssa.CallCommon) bool { return staticCallee(c) != nil }) {
 		f := staticCallee(call.Common())
-		if f.Signature.Recv() != nil && types.Identical(f.Signature.Recv().Type(), k.SearchT) && f.Signature.Results().Len() == 2 &&
+		if f.Signature.Recv() != nil && types.Identical(f.Signature.Recv().Type(), k.SearchT) && f.Signature.Results().Len() >= 1 && f.Signature.Results().Len() <= 2 &&
 			tstr(f.Signature.Results().At(0).Type(), qual) == "[]TextResult" {
 			k.Single = f
 		}
